@@ -1,7 +1,4 @@
-import DswModel.Tie.NpLemmas
-import DswModel.Tie.BuildDefs
-import DswModel.Tie.GzArith
-import DswModel.Tie.GzViews
+import DswModel.Tie.SwCodingOne
 /-!
 # Translation tie — `connect_coding_graph` (dsw/spiderweb.py)
 
@@ -11,9 +8,195 @@ the trimming rounds with the code's own stopping rule, the arc materialisation, 
 backward closure from the branching vertices and the predecessor cascade; `ValueError` exactly when the model
 says so; the returned vertex description denotes the model's vertex list (`Denotes`: the index array for
 threshold 1, otherwise a mask — the caller's own array when nothing was trimmed, a boolean array otherwise).
+
+The proof is split over `SwCodingLib` (primitives), `SwCodingTrim` (trimming rounds), `SwCodingArcs` (arc
+materialisation), `SwCodingConv` (the model's loops end within their fuel), `SwCodingOne` (threshold-1 phase).
 -/
 namespace Dsw.Tie
 open Dsw Dsw.Py
+
+namespace Ccg
+open Dsw.Trim Dsw.TrimOne
+
+/-! ### glue -/
+
+theorem seq_reduce {ε : Type} {m : R (Flow ε)} {k : ε → R (Flow ε)} (Q : ε → Prop)
+    (h : ∃ e1, m = .ok (.norm e1) ∧ Q e1) : ∃ e1, seq m k = k e1 ∧ Q e1 := by
+  obtain ⟨e1, rfl, hq⟩ := h
+  exact ⟨e1, rfl, hq⟩
+
+theorem callResult_seq_pred {ε : Type} {m : R (Flow ε)} {k : ε → R (Flow ε)} (Q : ε → Prop) (P : RV → Prop)
+    (hm : ∃ e1, m = .ok (.norm e1) ∧ Q e1) (hk : ∀ e1, Q e1 → P (callResult (k e1))) :
+    P (callResult (seq m k)) := by
+  obtain ⟨e1, rfl, hq⟩ := hm
+  exact hk e1 hq
+
+theorem callResult_seq_error {ε : Type} {m : R (Flow ε)} {k : ε → R (Flow ε)} {err : PyErr}
+    (hm : m = .error err) : callResult (seq m k) = .error err := by
+  rw [hm]; rfl
+
+/-- what the theorem says about the value of the call. -/
+def Post (k t : Nat) (res : R (List Nat × Acc)) (r : RV) : Prop :=
+  match res with
+  | .error err => r = .error err
+  | .ok (vs, a) => ∃ d, r = .ok (.tup [d, accPV a]) ∧ Denotes d vs (4 ^ k) t
+
+/-! ### `k = 0`: the single vertex is never useless -/
+
+theorem k0_facts {s : Mask} (hs : s.size = 4 ^ 0) (hc : 1 ≤ s.count) :
+    uselessOf (inducedAccessor 0 s) = [] ∧ (obtainVertices (inducedAccessor 0 s)).isEmpty = false := by
+  have hw := inducedAccessor_wfdb 0 s
+  obtain ⟨v, hv, hsv⟩ := Mask.exists_of_count_pos hc
+  have hv0 : v = 0 := by rw [hs] at hv; omega
+  subst hv0
+  have hent : ∀ j, j < 4 → (inducedAccessor 0 s).ent ((0 : Nat) : Int) j = 0 := by
+    intro j hj
+    rw [inducedAccessor_ent_trim 0 s 0 j (by omega) hj]
+    have : (0 * 4 + j) % 4 ^ 0 = 0 := by rw [Nat.pow_zero, Nat.mod_one]
+    rw [this, if_pos ⟨hsv, hsv⟩]; rfl
+  have hdeg : (inducedAccessor 0 s).deg 0 = 4 := by
+    rw [deg_eq]
+    have : ((List.range 4).filter fun j => decide ((inducedAccessor 0 s).ent ((0 : Nat) : Int) j ≥ 0)) = List.range 4 := by
+      rw [List.filter_eq_self]
+      intro j hj
+      rw [hent j (List.mem_range.mp hj)]; rfl
+    rw [this]; rfl
+  have h0 : 0 ∈ obtainVertices (inducedAccessor 0 s) := (mem_vs hw 0).2 ⟨by omega, by omega⟩
+  refine ⟨?_, ?_⟩
+  · unfold uselessOf
+    rw [List.filter_eq_nil_iff]
+    intro x hx
+    have hx0 : x = 0 := by have := ((mem_vs hw x).1 hx).1; omega
+    subst hx0
+    have hu : (usefulOf (inducedAccessor 0 s)).getD 0 false = true := by
+      apply (usefulOf_spec _).1
+      rw [u0_getD, hw.1]
+      exact ⟨by omega, by omega⟩
+    simp [hu]
+  · cases hv : obtainVertices (inducedAccessor 0 s) with
+    | nil => rw [hv] at h0; cases h0
+    | cons x xs => rfl
+
+/-! ### the threshold-1 phase on the induced accessor -/
+
+theorem t1_spec (k fuel : Nat) (hf : 4 ^ k + 2 ≤ fuel) (s : Mask) (hs : s.size = 4 ^ k) (hc : 1 ≤ s.count) (e : CEnv)
+    (h : RSt k (inducedAccessor k s) e) :
+    (∀ vs r, thresholdOneLoop k (4 ^ k + 1) (inducedAccessor k s) = .ok (vs, r) →
+      ∃ e', whileLoop (Gen.connect_coding_graph.while5_cond fuel) (Gen.connect_coding_graph.while5_body fuel) fuel e =
+        .ok (.norm e') ∧ e'.vertices = idxArrPV vs ∧ e'.accessor = accPV r) ∧
+    (∀ err, thresholdOneLoop k (4 ^ k + 1) (inducedAccessor k s) = .error err →
+      whileLoop (Gen.connect_coding_graph.while5_cond fuel) (Gen.connect_coding_graph.while5_body fuel) fuel e =
+        .error err) := by
+  by_cases hk : 1 ≤ k
+  · have := liveCount_le k (inducedAccessor k s)
+    exact while5_spec k fuel hk hf (4 ^ k + 1) _ fuel e (by omega) (by omega) h
+  · have hk0 : k = 0 := by omega
+    subst hk0
+    obtain ⟨hu, hv⟩ := k0_facts hs hc
+    have hb := iter_spec 0 fuel hf _ (Or.inr hu) e h
+    rw [hv, hu] at hb
+    simp only [Bool.false_eq_true, if_false, List.isEmpty_nil, if_true] at hb
+    obtain ⟨e1, hb1, g1, g2⟩ := hb
+    obtain ⟨W', rfl⟩ : ∃ W', fuel = W' + 1 := ⟨fuel - 1, by omega⟩
+    rw [thresholdOneLoop_succ', hv, hu]
+    simp only [Bool.false_eq_true, if_false, List.isEmpty_nil, if_true]
+    refine ⟨fun vs r hr => ?_, fun err hr => (by cases hr)⟩
+    cases hr
+    exact ⟨e1, whileLoop_true_brk (cond := Gen.connect_coding_graph.while5_cond (W' + 1)) (e := e) rfl hb1 W', g1, g2⟩
+
+/-! ### after the trimming rounds -/
+
+theorem k15_reduce (k t fuel : Nat) (ai : Bool) (s : Mask) (n : Int) (hs : s.size = 4 ^ k) (hc : 1 ≤ s.count) (e : CEnv)
+    (h : TrimSt k t ai s n e) :
+    ∃ e1, Gen.connect_coding_graph.k15 fuel e = Gen.connect_coding_graph.k14 fuel e1 ∧
+      (e1.observed_length = .int (k : Int) ∧ e1.vertices = maskPV ai s ∧ e1.threshold = .int (t : Int) ∧
+        e1.accessor = accPV (inducedAccessor k s)) := by
+  obtain ⟨h1, h2, h3, h4, h5⟩ := h
+  have hpos : (0 : Int) < ((cnt s.toList : Nat) : Int) := by rw [← count_eq_cnt]; omega
+  simp only [Gen.connect_coding_graph.k15, h3, maskPV_eq, npSum_bmask, pyLen_bmask, bnd_ok, Array.length_toList, hs,
+    pyTrueDiv_nat_pos _ (four_pow_pos k), pyGt_rat_zero, hpos, decide_true, if_true, h4, GzTie.pyLen_ACGT, h1,
+    pyPow_nat, pyInt_int, GzV.neg_ones_expr, pyRange1_nat, pyIter_list]
+  refine seq_reduce _ ?_
+  exact arcs_loop k fuel ai s hs (.int (t : Int)) _ (by first | rfl | exact h1) (by first | rfl | rw [maskPV_eq])
+    (by first | rfl | exact h2) rfl
+
+theorem denotes_mask (ai : Bool) (s : Mask) {k t : Nat} (hs : s.size = 4 ^ k) (ht : t ≠ 1) :
+    Denotes (maskPV ai s) s.indices (4 ^ k) t := by
+  unfold Denotes
+  rw [if_neg ht]
+  refine ⟨s.toList.map (cellPV ai), rfl, by simp [hs], fun i hi => ?_⟩
+  have hi' : i < s.size := by rw [hs]; exact hi
+  rw [Bool.eq_iff_iff, decide_eq_true_eq, Mask.mem_indices, List.getD_eq_getElem?_getD, List.getElem?_map,
+    List.getElem?_eq_getElem (by simpa using hi'), Option.map_some, Option.getD_some, truthy_cellPV]
+  simp [Array.getD_eq_getD_getElem?, hi']
+
+theorem k14_spec (k t fuel : Nat) (hf : 4 ^ k + 2 ≤ fuel) (ai : Bool) (s : Mask) (hs : s.size = 4 ^ k)
+    (hc : 1 ≤ s.count) (e : CEnv)
+    (h : e.observed_length = .int (k : Int) ∧ e.vertices = maskPV ai s ∧ e.threshold = .int (t : Int) ∧
+      e.accessor = accPV (inducedAccessor k s)) :
+    Post k t (if t = 1 then thresholdOneLoop k (4 ^ k + 1) (inducedAccessor k s)
+      else pure (s.indices, inducedAccessor k s)) (callResult (Gen.connect_coding_graph.k14 fuel e)) := by
+  obtain ⟨h1, h2, h3, h4⟩ := h
+  simp only [Gen.connect_coding_graph.k14, h3, pyEq_def, eqb_int, bnd_ok]
+  by_cases ht : t = 1
+  · subst ht
+    rw [if_pos rfl]
+    have hbeq : (((1 : Nat) : Int) == 1) = true := rfl
+    simp only [hbeq, if_true]
+    obtain ⟨t1, t2⟩ := t1_spec k fuel hf s hs hc e ⟨h1, h4, inducedAccessor_wfdb k s⟩
+    cases hres : thresholdOneLoop k (4 ^ k + 1) (inducedAccessor k s) with
+    | error err =>
+      rw [t2 err hres]
+      rfl
+    | ok p =>
+      obtain ⟨vs, r⟩ := p
+      obtain ⟨e', hl, g1, g2⟩ := t1 vs r hres
+      rw [hl]
+      simp only [seq_norm, Gen.connect_coding_graph.k13, bnd_ok, ite_self, Gen.connect_coding_graph.k12,
+        callResult_ret, g1, g2]
+      exact ⟨_, rfl, by simp [Denotes]⟩
+  · rw [if_neg ht]
+    have hbeq : ((t : Int) == 1) = false := by
+      simp only [beq_eq_false_iff_ne, ne_eq]; omega
+    simp only [hbeq, Bool.false_eq_true, if_false, seq_norm, Gen.connect_coding_graph.k13, bnd_ok, ite_self,
+      Gen.connect_coding_graph.k12, callResult_ret, h2, h4]
+    exact ⟨_, rfl, denotes_mask ai s hs ht⟩
+
+theorem body_spec (k t fuel : Nat) (hf : 4 ^ k + 2 ≤ fuel) (ai : Bool) (m : Mask) (hm : m.size = 4 ^ k) (e : CEnv)
+    (h1 : e.observed_length = .int (k : Int)) (h2 : e.threshold = .int (t : Int)) (h3 : e.vertices = maskPV ai m) :
+    Post k t (connectCodingGraph k m t) (callResult (Gen.connect_coding_graph.body fuel e)) := by
+  have hst : TrimSt k t ai m 1
+      ({ e with times := .int 1, nucleotides := .str ['A', 'C', 'G', 'T'] } : CEnv) := ⟨h1, h2, h3, rfl, rfl⟩
+  have hw := trim_while k t fuel (4 ^ k + 1) ai m 1 fuel _ hm hst (by omega)
+  simp only [Gen.connect_coding_graph.body]
+  cases htl : trimLoop k t (4 ^ k + 1) m with
+  | error err =>
+    have herr : err = .valueError :=
+      (trimLoop_error k t _ m err hm (by have := Mask.count_le_size m; omega) htl).1
+    subst herr
+    have hmodel : connectCodingGraph k m t = .error .valueError := by
+      unfold connectCodingGraph; rw [htl]; rfl
+    rw [hmodel]
+    show callResult _ = _
+    apply callResult_seq_error
+    exact hw.2 htl
+  | ok s =>
+    have hmodel : connectCodingGraph k m t =
+        (if t = 1 then thresholdOneLoop k (4 ^ k + 1) (inducedAccessor k s)
+          else pure (s.indices, inducedAccessor k s)) := by
+      unfold connectCodingGraph; rw [htl]; rfl
+    rw [hmodel]
+    obtain ⟨hs, _, _⟩ := trimLoop_ok_closed hm htl
+    have hc := trimLoop_ok_count_pos hm htl
+    refine callResult_seq_pred (fun e' => ∃ ai' n', TrimSt k t ai' s n' e') _ ?_ ?_
+    · obtain ⟨e', ai', n', hl, g⟩ := hw.1 s htl
+      exact ⟨e', hl, ai', n', g⟩
+    · rintro e1 ⟨ai', n', g⟩
+      obtain ⟨e2, hr, g2⟩ := k15_reduce k t fuel ai' s n' hs hc e1 g
+      rw [hr]
+      exact k14_spec k t fuel hf ai' s hs hc e2 g2
+
+end Ccg
 
 theorem tie_connect_coding_graph (k t : Nat) (m : Mask) (asInt : Bool) (fuel : Nat) (verbose : Bool)
     (hm : m.size = 4 ^ k) (hf : 4 ^ k + 2 ≤ fuel) :
@@ -21,6 +204,9 @@ theorem tie_connect_coding_graph (k t : Nat) (m : Mask) (asInt : Bool) (fuel : N
     | .error e => Gen.connect_coding_graph fuel (.int (k : Int)) (maskPV asInt m) (.int (t : Int)) (.bool verbose) = .error e
     | .ok (vs, a) => ∃ d, Gen.connect_coding_graph fuel (.int (k : Int)) (maskPV asInt m) (.int (t : Int)) (.bool verbose) =
         .ok (.tup [d, accPV a]) ∧ Denotes d vs (4 ^ k) t := by
-  sorry
+  have h := Ccg.body_spec k t fuel hf asInt m hm
+    { observed_length := .int (k : Int), vertices := maskPV asInt m, threshold := .int (t : Int),
+      verbose := .bool verbose } rfl rfl rfl
+  exact h
 
 end Dsw.Tie
